@@ -89,7 +89,7 @@ def mixed_dbs(tier):
     return out
 SHAPES = ["A", "B", "C"]
 CAP = 64
-CPU_LIMIT = 0.4    # seconds of worker CPU time for one history (a normal one needs a few ms)
+CPU_LIMIT = 0.2    # seconds of worker CPU time for one history (a normal one needs a few ms)
 
 
 def nmax(tier, shape="A", dbi=3):
